@@ -745,7 +745,7 @@ func parseSpecFunc(txt string) (*SpecFunc, error) {
 // and every *.spec file of the extern directory.
 func (p *Prog) loadContracts(externDir string) error {
 	var files []string
-	filepath.Walk(filepath.Join(p.repoDir, "pkg"), func(path string, info os.FileInfo, err error) error {
+	filepath.Walk(p.repoDir, func(path string, info os.FileInfo, err error) error {
 		if err == nil && !info.IsDir() && strings.HasPrefix(info.Name(), "zz_verif_contracts") && strings.HasSuffix(info.Name(), ".go") {
 			files = append(files, path)
 		}
